@@ -285,3 +285,12 @@ Fixpoint run_session (m : mode) (st : sstate) (ops : list op) : list (gst * bool
   | [] => []
   | o :: rest => let '(st', raised) := step m st o in (s_g st', raised) :: run_session m st' rest
   end.
+
+(* the identifiers handed out by each step (for statements about which objects hold which ids) *)
+Fixpoint run_session_tr (m : mode) (st : sstate) (ops : list op) : list (list titem) :=
+  match ops with
+  | [] => []
+  | o :: rest =>
+      let '(es, _) := op_events st o in
+      r_tr (run_evs m es (s_g st)) :: run_session_tr m (fst (step m st o)) rest
+  end.
